@@ -51,6 +51,7 @@ type Rec struct {
 	Sock   string // label of the socket concerned
 	Copy   int
 	Err    string
+	Task   int // task that performed the operation (-1: the driver, e.g. a timer callback)
 }
 
 // Fabric is the simulated network of one run.
@@ -144,8 +145,11 @@ func (f *Fabric) fired(kind string) {
 
 func (f *Fabric) rec(r Rec) *Rec {
 	r.T, r.Seq = f.s.Stamp()
+	r.Task = f.s.CurrentID()
+	f.mu.Lock()
 	f.Log = append(f.Log, r)
 	rr := &f.Log[len(f.Log)-1]
+	f.mu.Unlock()
 	f.s.Logf("net %s %s>%s %x ref=%d sock=%s %s", r.Kind, r.Src, r.Dst, r.Data, r.Ref, r.Sock, r.Err)
 	return rr
 }
